@@ -306,7 +306,7 @@ func checkC01(c *Ctx) {
 	if w != nil && byPattern != nil {
 		bad := "no ByPattern call after the read-back"
 		var bp *core.Call
-		for _, cl := range core.CallsTo(w.run, byPattern) {
+		for _, cl := range core.CallsTo(w.logFn, byPattern) {
 			if core.Dominates(w.logGet.Instr, cl.Instr) {
 				bp = cl
 				a := cl.Arg(0)
@@ -319,7 +319,7 @@ func checkC01(c *Ctx) {
 		}
 		ru2.Check(bad == "", "topic used for recipient resolution in "+c.fname(w.run), c.whereI(w.logGet.Instr), "ByPattern(entry.Topic)", bad)
 		fan := false
-		for _, cl := range core.CallsIn(w.run) {
+		for _, cl := range core.CallsIn(w.logFn) {
 			if cl.Static == nil || bp == nil || !core.Dominates(bp.Instr, cl.Instr) {
 				continue
 			}
@@ -333,7 +333,7 @@ func checkC01(c *Ctx) {
 						// recipients derived from the ByPattern result (filled in place or by a helper)
 						ms, isMake := core.Strip(a).(*ssa.MakeSlice)
 						if isMake {
-							for _, b := range w.run.Blocks {
+							for _, b := range w.logFn.Blocks {
 								for _, in := range b.Instrs {
 									if st, ok := in.(*ssa.Store); ok {
 										if ia, ok := st.Addr.(*ssa.IndexAddr); ok && core.Strip(ia.X) == ssa.Value(ms) && depReaches(st.Val, func(v ssa.Value) bool { return v == bp.Value() }) {
@@ -382,8 +382,11 @@ func (c *Ctx) rulePerRecipientWrites(id string) {
 		return
 	}
 	c.R.Fn(c.fname(fan))
-	gets := core.CallsTo(fan, o.localGet)
-	g := gets[0]
+	lk := c.fanLookup(o, fan)
+	g := lk.site
+	if lk.helper != nil {
+		c.R.Fn(c.fname(lk.helper))
+	}
 	loop, exitFn, exitLoop, callSite := c.fanLoop(o, fan, g)
 	if loop == nil {
 		ru.Fail("fan-out loop of "+c.fname(fan), c.where(fan, fan), "the registry lookup is not inside a loop over the recipients")
@@ -392,11 +395,12 @@ func (c *Ctx) rulePerRecipientWrites(id string) {
 	directGet := func(f *ssa.Function) bool {
 		return f != nil && f.Parent() == nil && o.arming[f] == nil && c.callsTransitively(f, 0, func(x *core.Call) bool { return x.Is(o.midGet) })
 	}
-	paths, err := c.pathsInlined(fan, core.PathOpts{Start: g.Instr.Block(), Stop: func(b *ssa.BasicBlock) bool { return loop.Header != nil && b == loop.Header }},
+	paths, err := c.pathsInlinedWorth(fan, core.PathOpts{Start: g.Instr.Block(), Stop: func(b *ssa.BasicBlock) bool { return loop.Header != nil && b == loop.Header }},
 		func(cl *core.Call) bool {
 			return isArmCall(cl) || cl.Is(o.midGet, o.midPut) || directGet(cl.Static) || (cl.Obj != nil && cl.Obj.Pkg() != nil && cl.Obj.Pkg().Path() == pkgEncoder)
 		},
-		func(f *ssa.Function) bool { return o.arming[f] != nil })
+		func(f *ssa.Function) bool { return o.arming[f] != nil },
+		func(f *ssa.Function) bool { return f == lk.helper })
 	if err != nil {
 		ru.Undecided("fan-out loop of "+c.fname(fan), c.where(fan, fan), err.Error())
 		return
@@ -416,7 +420,7 @@ func (c *Ctx) rulePerRecipientWrites(id string) {
 	for _, p := range paths {
 		reg := tri{}
 		for _, cd := range p.Conds {
-			if bo, ok := cd.V.(*ssa.BinOp); ok && (bo.X == g.Value() || bo.Y == g.Value()) {
+			if bo, ok := cd.V.(*ssa.BinOp); ok && (bo.Op == token.EQL || bo.Op == token.NEQ) && (p.Resolve(bo.X) == lk.get.Value() || p.Resolve(bo.Y) == lk.get.Value()) {
 				reg = tri{true, !cd.Val} // positive term: Get(..) == nil
 			}
 		}
@@ -437,7 +441,7 @@ func (c *Ctx) rulePerRecipientWrites(id string) {
 			case armOn(p, pc.Call) != nil:
 				arms++
 				tgt, off := c.armTarget(o, p, pc.Call)
-				if tgt.sessIdx-off >= 0 && !same(p.Resolve(pc.Common.Args[tgt.sessIdx-off]), g.Value()) {
+				if tgt.sessIdx-off >= 0 && !same(p.Resolve(pc.Common.Args[tgt.sessIdx-off]), lk.get.Value()) && !same(p.Resolve(pc.Common.Args[tgt.sessIdx-off]), lk.sess) {
 					bad = "the message is armed for a session other than the recipient looked up in this iteration"
 				}
 			case pc.Is(o.midGet) || (pc.Static != nil && pc.Static.Parent() == nil && o.arming[pc.Static] == nil && takesID(pc.Static)):
@@ -852,8 +856,17 @@ func checkC07(c *Ctx) {
 				// early exits of the replay loop
 				gf := g.Instr.Parent()
 				c.R.Fn(c.fname(gf))
-				if l := core.InnermostLoop(core.Loops(gf), g.Instr.Block()); l != nil {
-					paths, err := core.EnumPaths(gf, core.PathOpts{Start: g.Instr.Block()})
+				l := core.InnermostLoop(core.Loops(gf), g.Instr.Block())
+				startBlock := g.Instr.Block()
+				if l == nil {
+					// the replay of one filter is a helper called once per filter (sendRetained(ctx, session, filter, qos))
+					if site, cl := c.callerLoop(gf); cl != nil {
+						gf, l, startBlock = site.Parent(), cl, site.Block()
+						c.R.Fn(c.fname(gf))
+					}
+				}
+				if l != nil {
+					paths, err := core.EnumPaths(gf, core.PathOpts{Start: startBlock})
 					if err == nil {
 						ru2.Evals(len(paths))
 						for _, p := range paths {
@@ -1107,20 +1120,79 @@ func (c *Ctx) fanOut(o *outbound) *ssa.Function {
 		if o.arming[f] != nil || f.Parent() != nil {
 			continue
 		}
-		inLoop := false
-		loops := core.Loops(f)
-		for _, g := range core.CallsTo(f, o.localGet) {
-			if core.InnermostLoop(loops, g.Instr.Block()) != nil {
-				inLoop = true
-			} else if _, cl := c.callerLoop(f); cl != nil {
-				inLoop = true // the body of the recipient loop is this function: one call per recipient
-			}
+		lk := c.fanLookup(o, f)
+		if lk == nil {
+			continue
 		}
-		if inLoop && c.reaches(f, 2, isArmCall) {
+		inLoop := false
+		if core.InnermostLoop(core.Loops(f), lk.site.Instr.Block()) != nil {
+			inLoop = true
+		} else if _, cl := c.callerLoop(f); cl != nil {
+			inLoop = true // the body of the recipient loop is this function: one call per recipient
+		}
+		if inLoop && c.reaches(f, 3, isArmCall) {
 			fan = f
 		}
 	}
 	return fan
+}
+
+// fanLookup describes how function f looks a recipient up in the local registry: directly (LocalState.Get called in f),
+// or through a look-up helper of its package that returns what LocalState.Get gave it (recipientSession(id) (s, ok)).
+type fanLookupInfo struct {
+	site   *core.Call    // the call in f: LocalState.Get itself, or the call of the helper
+	get    *core.Call    // the LocalState.Get call (in f or in the helper)
+	sess   ssa.Value     // the value that denotes the session found, in f
+	helper *ssa.Function // nil for a direct look-up
+}
+
+func (c *Ctx) fanLookup(o *outbound, f *ssa.Function) *fanLookupInfo {
+	if gets := core.CallsTo(f, o.localGet); len(gets) > 0 {
+		return &fanLookupInfo{site: gets[0], get: gets[0], sess: gets[0].Value()}
+	}
+	for _, cl := range core.CallsIn(f) {
+		h := cl.Static
+		if h == nil || h == f || h.Pkg != f.Pkg || h.Parent() != nil || o.arming[h] != nil || cl.Value() == nil {
+			continue
+		}
+		if _, isGo := cl.Instr.(*ssa.Go); isGo {
+			continue
+		}
+		gets := core.CallsTo(h, o.localGet)
+		if len(gets) != 1 || core.InnermostLoop(core.Loops(h), gets[0].Instr.Block()) != nil {
+			continue
+		}
+		// which result carries the session
+		gv := gets[0].Value()
+		idx := -1
+		for _, b := range h.Blocks {
+			if r, ok := b.Instrs[len(b.Instrs)-1].(*ssa.Return); ok {
+				for i, rv := range r.Results {
+					if core.Strip(rv) == gv {
+						idx = i
+					}
+				}
+			}
+		}
+		if idx < 0 {
+			continue
+		}
+		info := &fanLookupInfo{site: cl, get: gets[0], helper: h}
+		if h.Signature.Results().Len() == 1 {
+			info.sess = cl.Value()
+		} else if cl.Value().Referrers() != nil {
+			for _, r := range *cl.Value().Referrers() {
+				if ex, ok := r.(*ssa.Extract); ok && ex.Index == idx {
+					info.sess = ex
+				}
+			}
+		}
+		if info.sess == nil {
+			continue
+		}
+		return info
+	}
+	return nil
 }
 
 // callerLoop: f is called from exactly one place in the module, inside a loop: the caller and that loop.
